@@ -17,6 +17,7 @@ as an opaque environment object and one *generic* line item:
      machine's - the comparison of C05/C06/C17, reported here under C20 keys.
  (g) printing cannot panic: Debug/Display impls of the library's types are derived, or, when
      hand-written, interpreted on an arbitrary value of the type with every panic an obligation.
+ (h) the tool's format strings use plain placeholders only (values printed as they are).
 """
 from __future__ import annotations
 from ..domains import IntSet
@@ -130,6 +131,65 @@ def run(ctx, chk):
         for k, uses in sorted(LI.unknown_ext.items()):
             chk.ob(False, "C20/library-unknown-external/%s" % k, "library call to %s has no contract" % k)
     chk.ob(nlib >= 200, "C20/library-floor/%d" % nlib, "library obligation sites examined: %d" % nlib, sample={"library_obligation_sites": nlib, "status": "all discharged"})
+    # ---- (h) the records print the values as they are: every placeholder of the tool's format
+    #      strings is the plain one (no precision / width / flags - `{:.6?}` would round every
+    #      coordinate the tool reports).  The template is the byte string rustc hands to
+    #      fmt::Arguments::new (encoding of the pinned nightly: 0 end, 1..=0x7f literal of that
+    #      length, 0x80 + u16 long literal, 0xC0|options placeholder with option payloads).
+    ntpl = 0
+    for b in f.bodies.values():
+        consts, refs = {}, {}
+        for blk in b["blocks"]:
+            for stt in blk["stmts"]:
+                if "assign" not in stt or stt["assign"]["p"]:
+                    continue
+                rv = stt.get("rv", {})
+                if "use" in rv and isinstance(rv["use"], dict) and "const" in rv["use"] and "bytes" in rv["use"]["const"]:
+                    consts[stt["assign"]["l"]] = rv["use"]["const"]["bytes"]
+                elif "ref" in rv:
+                    refs[stt["assign"]["l"]] = rv["ref"]["l"]
+                elif "use" in rv and isinstance(rv["use"], dict) and ("move" in rv["use"] or "copy" in rv["use"]):
+                    src = rv["use"].get("move") or rv["use"].get("copy")
+                    if not src["p"]:
+                        refs[stt["assign"]["l"]] = src["l"]
+        for blk in b["blocks"]:
+            t = blk["term"]
+            if "call" in t and t["call"]["def"].startswith("core::fmt::") and t["call"]["def"].endswith("::new") and len(t.get("args", [])) == 2:
+                a0 = t["args"][0]
+                l = (a0.get("move") or a0.get("copy") or {}).get("l")
+                seen_l = set()
+                while l is not None and l not in consts and l in refs and l not in seen_l:
+                    seen_l.add(l)
+                    l = refs[l]
+                tpl = consts.get(l)
+                if tpl is None:
+                    continue
+                ntpl += 1
+                i, opts, okparse = 0, [], True
+                while i < len(tpl):
+                    c = tpl[i]
+                    if c == 0:
+                        break
+                    if c < 0x80:
+                        i += 1 + c
+                    elif c == 0x80:
+                        if i + 2 >= len(tpl):
+                            okparse = False
+                            break
+                        i += 3 + tpl[i + 1] + 256 * tpl[i + 2]
+                    elif c >= 0xC0:
+                        o = c & 0x3F
+                        opts.append(o)
+                        i += 1 + (4 if o & 1 else 0) + (2 if o & 2 else 0) + (2 if o & 4 else 0) + (2 if o & 8 else 0)
+                    else:
+                        okparse = False
+                        break
+                chk.ob(okparse, "C20/format/unparsed/%s" % b["def"].rsplit("::", 1)[-1], "reason=unanalysable: format template in %s not understood: %r" % (b["def"], tpl))
+                if okparse:
+                    chk.ob(all(o == 0 for o in opts), "C20/format/options/%s/%r" % (b["def"].rsplit("::", 1)[-1], opts),
+                           "a record written by the tool (%s) formats a value with precision / width / flags (placeholder options %r): the decoded values are no longer printed as they are" % (b["def"], opts),
+                           sample={"format_template": b["def"].rsplit("::", 1)[-1], "placeholders": len(opts), "options": "none"})
+    chk.ob(ntpl >= 2, "C20/format/floor/%d" % ntpl, "only %d format templates of the tool found" % ntpl)
     # ---- (g) what println!/eprintln! call back into: a derived Debug impl cannot panic; a
     #      hand-written Debug/Display impl of a library type is interpreted on an arbitrary value
     from .fmtimpls import analyse_manual_fmt
